@@ -47,6 +47,23 @@ def _alarm(signum, frame):
     raise HardTimeout()
 
 
+def quiet_twisted():
+    """twisted.python.log prints unhandled Deferred failures to stderr when nothing observes the log."""
+    try:
+        from twisted.python import log
+        if getattr(log, 'defaultObserver', None) is not None:
+            log.defaultObserver.stop()
+            log.defaultObserver = None
+    except Exception:
+        pass
+    try:
+        from twisted.logger import globalLogBeginner
+        import io
+        globalLogBeginner.beginLoggingTo([lambda e: None], redirectStandardIO=False, discardBuffer=True)
+    except Exception:
+        pass
+
+
 def _setup_paths():
     for p in (VERIF, REPO):
         if p in sys.path:
@@ -273,6 +290,7 @@ def _worker_main(conn, prop, do_twin):
         plugin.install()
         import txdbus.marshal  # noqa
         plugin.install_wrappers()
+        quiet_twisted()
     except Exception:
         conn.send(('fatal', traceback.format_exc()))
         return
